@@ -12,7 +12,7 @@ import numpy as np
 from scipy import stats
 from scipy.special import gammaln
 
-from .. import boundgen
+from .. import boundgen, env
 
 ID = 'C08'
 LEVEL = 'exploration'
@@ -220,6 +220,13 @@ def run_case(spec):
 
         mult_s = _multiplicity(members, ys)
         mult_r = _multiplicity(members, ref)
+        inside_s = bound.contains(xs)
+        if np.any(mult_s == 0) or not np.all(inside_s):
+            viols.append(dict(key='bound.sample-outside-bound.' + kind, kind=kind, opts=spec['opts'], shape=shape, d=d,
+                              what='%d of %d sampled points lie in no member ellipsoid / %d fail contains() of the bound '
+                              'they were drawn from' % (int(np.sum(mult_s == 0)), len(ys), int(np.sum(~inside_s)))))
+            return {'status': 'violation', 'violations': viols, 'obs': obs, 'nontrivial': False,
+                    'key': '%s|%s|%s|d%d' % (kind, sorted(spec['opts'].items()), shape, d)}
         obs['frac_multiplicity_ge2_max'] = float(np.mean(mult_s >= 2))
         med = np.median(ref, axis=0)
         cs, cr = _cells(ys, mult_s, med), _cells(ref, mult_r, med)
@@ -242,9 +249,9 @@ def run_case(spec):
                                   what='sample stream differs from uniform-over-contains: chi2 = %.1f with %d cells '
                                   '(p = %.2g); fraction at multiplicity >= 2: samples %.4f, reference %.4f'
                                   % (chi2, len(a), p, np.mean(mult_s >= 2), np.mean(mult_r >= 2)), p=p))
-        if np.any(mult_s == 0):
-            viols.append(dict(key='bound.sample-not-in-any-member', what='a sampled point lies in no member ellipsoid'))
     except Exception as e:
+        if not env.from_code_under_test(e):
+            raise          # harness error: never folded into 'skipped'
         return {'status': 'skipped', 'reason': 'raise outside the property: %r' % e,
                 'traceback': traceback.format_exc()[-1500:], 'obs': obs}
     finally:
